@@ -134,6 +134,7 @@ func runPrio(c *Ctx) {
 	c.R.Add("PRIO-D", "resolver|all-in-edges-of-copy", "resolver", r1.Pos, srcOK, "every in-edge of the matching vertex is re-weighted, enumerated on the same copy", fmt.Sprintf("ok=%v", srcOK))
 	// guard: raw is a value vertex with Name == current.Name, current a value vertex
 	var current ssa.Value
+	var pref *prefName
 	nameGuard, kindGuard, curIsValue := false, false, false
 	rawPath := core.Path(r1.P)
 	// the edge's own guards plus, when the discount loop lives in a private helper, the guards of its call site; values
@@ -146,6 +147,25 @@ func runPrio(c *Ctx) {
 		if l.Kind == "cmp" && l.Op == token.EQL && l.Pol {
 			fx, okx := core.AsFieldLoad(p.Bind(l.X))
 			fy, oky := core.AsFieldLoad(p.Bind(l.Y))
+			// the name in effect: the parameter's own name when it is a named value, else the preference inherited from the
+			// enclosing named requirement through the resolver's call state
+			for _, side := range [][2]ssa.Value{{l.X, l.Y}, {l.Y, l.X}} {
+				fr, okr := core.AsFieldLoad(p.Bind(side[0]))
+				if !okr || fr.Field != "Name" || fr.Owner != kinds.Value {
+					continue
+				}
+				if ta := assertOf(fr.Base); ta == nil || core.Path(ta.X) != rawPath {
+					continue
+				}
+				if _, direct := core.AsFieldLoad(p.Bind(side[1])); direct {
+					continue
+				}
+				if pn := decodePrefName(p, res, kinds, p.Bind(side[1])); pn != nil && pn.cur != nil {
+					pref = pn
+					nameGuard = true
+					current = pn.cur
+				}
+			}
 			if okx && oky && fx.Field == "Name" && fy.Field == "Name" && fx.Owner == kinds.Value && fy.Owner == kinds.Value {
 				for _, pair := range [][2]core.FieldRef{{fx, fy}, {fy, fx}} {
 					if ta := assertOf(pair[0].Base); ta != nil && core.Path(ta.X) == rawPath {
@@ -239,6 +259,9 @@ func runPrio(c *Ctx) {
 				fx, okx := core.AsFieldLoad(p.Bind(l.X))
 				fy, oky := core.AsFieldLoad(p.Bind(l.Y))
 				isName = okx && oky && fx.Field == "Name" && fy.Field == "Name"
+				if !isName && pref != nil && (p.Bind(l.X) == pref.v || p.Bind(l.Y) == pref.v) {
+					isName = (okx && fx.Field == "Name") || (oky && fy.Field == "Name")
+				}
 			}
 			if isName {
 				continue
@@ -290,8 +313,15 @@ func runPrio(c *Ctx) {
 		c.R.Add("PRIO-D", "resolver|every-in-edge-discounted", "resolver", r1.Pos, allEdges,
 			"all in-edges of a same-named value vertex receive the discount (no per-edge condition, no early exit)", whyAll)
 	}
-	c.R.Add("PRIO-D", "resolver|only-for-named-parameters", "resolver", r1.Pos, curIsValue,
-		"discounting happens only while resolving a named parameter (type-only parameters see the undiscounted, non-negative weights)", fmt.Sprintf("ok=%v", curIsValue))
+	if pref != nil {
+		// the name in effect is the parameter's own name or the inherited preference and nothing else; the own name always
+		// wins (a nested NAMED requirement must not see its caller's preference)
+		c.R.Add("PRIO-D", "resolver|only-for-named-parameters", "resolver", r1.Pos, pref.bad == "",
+			"discounting happens only under a name preference: the parameter's own name when it is a named value, otherwise the preference inherited from the enclosing named requirement (a type-only parameter outside any named requirement sees the undiscounted, non-negative weights)", ternary(pref.bad == "", fmt.Sprintf("own name (always, when the parameter is a named value) or the call state's preferred name; %d arm(s)", pref.arms), pref.bad))
+	} else {
+		c.R.Add("PRIO-D", "resolver|only-for-named-parameters", "resolver", r1.Pos, curIsValue,
+			"discounting happens only while resolving a named parameter (type-only parameters see the undiscounted, non-negative weights)", fmt.Sprintf("ok=%v", curIsValue))
+	}
 	// one fresh copy per parameter: the Copy is made in the iteration that selects the current parameter
 	perParam := false
 	if onCopy && current != nil {
@@ -412,29 +442,125 @@ func runPrio(c *Ctx) {
 						okG = stored && !other
 					}
 				}
-				// … or the preferred name travels in the call state: a string field of the state is set from a named vertex's
-				// name in the resolver (the nested call reads it when its own requirement has no name)
+				// … or the preferred name travels in the call state: the latest store to a string field of the state that
+				// dominates the nested call puts there the name in effect of the very requirement whose path is being walked
+				// (own name of a named requirement, else the preference this call inherited itself)
 				if !okG {
-					p.RegionInstrs(res, func(in ssa.Instruction) {
+					var last *ssa.Store
+					core.Instrs(ci.Parent(), func(in ssa.Instruction) {
 						st, isSt := in.(*ssa.Store)
-						if !isSt {
+						if !isSt || !core.InstrDominates(st, ci.(ssa.Instruction)) {
 							return
 						}
 						fa, isF := core.AsFieldAddr(st.Addr)
-						if !isF || fa.Owner != "callState" {
+						if !isF {
 							return
 						}
 						if b, isB := st.Val.Type().Underlying().(*types.Basic); !isB || b.Kind() != types.String {
 							return
 						}
-						for _, sv := range core.Sources(st.Val) {
-							if fr, isL := core.AsFieldLoad(sv); isL && fr.Owner == kinds.Value && fr.Field == "Name" {
+						if prm, isPrm := core.Strip(unspill(p.Bind(unspill(fa.Base)))).(*ssa.Parameter); !isPrm || prm.Parent() != res {
+							if prm2, isPrm2 := core.Strip(unspill(fa.Base)).(*ssa.Parameter); !isPrm2 || prm2.Parent() != res {
+								return
+							}
+						}
+						if last == nil || core.InstrDominates(last, st) {
+							last = st
+						}
+					})
+					if last != nil {
+						val, why := last.Val, ""
+						// handed down to the step that makes the nested call
+						for k := 0; k < 4; k++ {
+							if prm, isPrm := core.Strip(val).(*ssa.Parameter); isPrm {
+								if b := p.Bind(prm); b != ssa.Value(prm) {
+									val = b
+									continue
+								}
+							}
+							break
+						}
+						// kept per requirement in a local list: names[i] = name in effect; … state.Name = names[i]
+						if ld, isLd := val.(*ssa.UnOp); isLd && ld.Op == token.MUL {
+							if ia, isIA := ld.X.(*ssa.IndexAddr); isIA {
+								var stored []ssa.Value
+								var storeIdx []ssa.Value
+								// the list, followed to where it is made: handed down as a parameter, or returned by the planning step
+								bases := map[ssa.Value]bool{}
+								var addBase func(b ssa.Value, d int)
+								addBase = func(b ssa.Value, d int) {
+									if b == nil || d > 4 || bases[b] {
+										return
+									}
+									bases[b] = true
+									switch x := b.(type) {
+									case *ssa.Parameter:
+										if bb := p.Bind(x); bb != ssa.Value(x) {
+											addBase(bb, d+1)
+										}
+									case *ssa.Extract:
+										if call, isCall := x.Tuple.(*ssa.Call); isCall {
+											if callee := call.Common().StaticCallee(); callee != nil && p.PrivateHelper(callee) {
+												core.Instrs(callee, func(in ssa.Instruction) {
+													if r, isR := in.(*ssa.Return); isR && x.Index < len(r.Results) {
+														addBase(r.Results[x.Index], d+1)
+													}
+												})
+											}
+										}
+									case *ssa.Phi:
+										for _, e := range x.Edges {
+											addBase(e, d+1)
+										}
+									}
+								}
+								addBase(ia.X, 0)
+								for _, rf := range p.Region(res) {
+									core.Instrs(rf, func(in ssa.Instruction) {
+										if st, isSt := in.(*ssa.Store); isSt {
+											if ia2, isIA2 := st.Addr.(*ssa.IndexAddr); isIA2 && bases[ia2.X] {
+												stored = append(stored, st.Val)
+												storeIdx = append(storeIdx, ia2.Index)
+											}
+										}
+									})
+								}
+								if len(stored) == 1 {
+									val = stored[0]
+									// the entry read is the one of the path being walked: written at the index that selects the
+									// requirement, read at the index that selects its path
+									if pn := decodePrefName(p, res, kinds, val); pn != nil && pn.cur != nil {
+										if cl, isCl := pn.cur.(*ssa.UnOp); isCl {
+											if cia, isCIA := cl.X.(*ssa.IndexAddr); isCIA && cia.Index != storeIdx[0] {
+												why = "the preferred name of a requirement is filed under another requirement's index"
+											}
+										}
+									}
+									if w := pathIndexMismatch(ci.Parent(), ep, ia.Index); w != "" {
+										why = w
+									}
+								} else {
+									why = fmt.Sprintf("the per-requirement name list is written at %d sites", len(stored))
+								}
+							}
+						}
+						if why == "" {
+							pn := decodePrefName(p, res, kinds, val)
+							switch {
+							case pn == nil:
+								why = "the name put in the call state at " + p.InstrPos(last) + " is not the name of the requirement being reached (" + core.Path(val) + ")"
+							case pn.bad != "":
+								why = pn.bad
+							default:
 								okG = true
 							}
 						}
-					})
+						if !okG {
+							badNested = "the nested resolution at " + p.InstrPos(ci) + " reads a preferred name from the call state, but " + why
+						}
+					}
 				}
-				if !okG {
+				if !okG && badNested == "" {
 					badNested = "the nested resolution at " + p.InstrPos(ci) + " gets neither the graph its path was searched on (it runs on " + core.Path(arg) + ") nor a preferred name in the call state"
 				}
 			}
@@ -492,6 +618,273 @@ func runPrio(c *Ctx) {
 
 	// ---------------- INPUT: supplied values overwrite the coinciding requirement and hang off the root
 	c.runInputs(kinds)
+}
+
+// prefName is the decoded "name in effect" of a requirement: its own name when it is a named value vertex, otherwise the
+// preference carried in the resolver's call state.
+type prefName struct {
+	v    ssa.Value // the compared value
+	cur  ssa.Value // the operand asserted to be a value vertex (the current requirement)
+	arms int
+	bad  string
+}
+
+// prefArm is one way a name can reach the comparison: the leaf value and the guards under which that way is taken
+// (guards that hold for every way alike are left out).
+type prefArm struct {
+	leaf ssa.Value
+	lits []core.Lit
+}
+
+func edgeLits(p *core.Prog, pred, succ *ssa.BasicBlock) []core.Lit {
+	lits := append([]core.Lit{}, p.ILits(pred)...)
+	if iff, ok := pred.Instrs[len(pred.Instrs)-1].(*ssa.If); ok && len(pred.Succs) == 2 && pred.Succs[0] != pred.Succs[1] {
+		if pred.Succs[0] == succ {
+			lits = append(lits, core.LitOf(iff.Cond, true))
+		} else if pred.Succs[1] == succ {
+			lits = append(lits, core.LitOf(iff.Cond, false))
+		}
+	}
+	return lits
+}
+
+func minusLits(a, b []core.Lit) []core.Lit {
+	have := map[string]bool{}
+	for _, l := range b {
+		have[l.String()] = true
+	}
+	var out []core.Lit
+	for _, l := range a {
+		if !have[l.String()] {
+			out = append(out, l)
+		}
+	}
+	return out
+}
+
+// prefArms follows v through merges, parameters of private steps (to the argument handed in) and results of private
+// steps (to what they return).
+func prefArms(p *core.Prog, pkg *ssa.Package, v ssa.Value, lits []core.Lit, d int, out *[]prefArm) {
+	if d > 8 {
+		*out = append(*out, prefArm{v, lits})
+		return
+	}
+	results := func(call *ssa.Call, idx int) bool {
+		callee := call.Common().StaticCallee()
+		if callee == nil || callee.Pkg != pkg || len(callee.Blocks) == 0 || !p.PrivateHelper(callee) {
+			return false
+		}
+		entry := p.ILits(callee.Blocks[0])
+		n := 0
+		core.Instrs(callee, func(in ssa.Instruction) {
+			if r, ok := in.(*ssa.Return); ok && idx < len(r.Results) {
+				n++
+				prefArms(p, pkg, r.Results[idx], append(append([]core.Lit{}, lits...), minusLits(p.ILits(r.Block()), entry)...), d+1, out)
+			}
+		})
+		return n > 0
+	}
+	switch x := v.(type) {
+	case *ssa.Phi:
+		common := p.ILits(x.Block())
+		for i, e := range x.Edges {
+			prefArms(p, pkg, e, append(append([]core.Lit{}, lits...), minusLits(edgeLits(p, x.Block().Preds[i], x.Block()), common)...), d+1, out)
+		}
+		return
+	case *ssa.Parameter:
+		if b := p.Bind(x); b != ssa.Value(x) {
+			prefArms(p, pkg, b, lits, d+1, out)
+			return
+		}
+	case *ssa.UnOp:
+		// read back from the per-requirement list at the index it was just filed under
+		if ia, ok := x.X.(*ssa.IndexAddr); ok && x.Op == token.MUL {
+			var vals []ssa.Value
+			core.Instrs(x.Parent(), func(in ssa.Instruction) {
+				if st, isSt := in.(*ssa.Store); isSt {
+					if ia2, isIA2 := st.Addr.(*ssa.IndexAddr); isIA2 && ia2.X == ia.X {
+						if ia2.Index == ia.Index && core.InstrDominates(st, x) {
+							vals = append(vals, st.Val)
+						} else {
+							vals = append(vals, nil)
+						}
+					}
+				}
+			})
+			if len(vals) == 1 && vals[0] != nil {
+				prefArms(p, pkg, vals[0], lits, d+1, out)
+				return
+			}
+		}
+	case *ssa.Extract:
+		if call, ok := x.Tuple.(*ssa.Call); ok && results(call, x.Index) {
+			return
+		}
+	case *ssa.Call:
+		if _, isGetter := core.AsFieldLoad(x); !isGetter && results(x, 0) {
+			return
+		}
+	}
+	*out = append(*out, prefArm{v, lits})
+}
+
+// decodePrefName reads v as a merge of `assert<value vertex>(cur).Name` (taken exactly when the assertion holds) and a
+// string field of the call state handed to the resolver. Returns nil when v has no own-name arm at all.
+func decodePrefName(p *core.Prog, res *ssa.Function, kinds *core.Kinds, v ssa.Value) *prefName {
+	pn := &prefName{v: v}
+	bound := func(x ssa.Value) ssa.Value {
+		x = unspill(x)
+		if prm, ok := core.Strip(x).(*ssa.Parameter); ok {
+			return unspill(p.Bind(prm))
+		}
+		return x
+	}
+	isState := func(s ssa.Value) bool {
+		fr, ok := core.AsFieldLoad(s)
+		if !ok {
+			return false
+		}
+		if b, isB := s.Type().Underlying().(*types.Basic); !isB || b.Kind() != types.String {
+			return false
+		}
+		prm, isPrm := core.Strip(bound(fr.Base)).(*ssa.Parameter)
+		if !isPrm {
+			return false
+		}
+		_, isPtr := prm.Type().Underlying().(*types.Pointer)
+		return isPtr
+	}
+	own := func(s ssa.Value) *ssa.TypeAssert {
+		fr, ok := core.AsFieldLoad(s)
+		if !ok || fr.Field != "Name" || fr.Owner != kinds.Value {
+			return nil
+		}
+		return assertOf(fr.Base)
+	}
+	var arms []prefArm
+	prefArms(p, res.Pkg, v, nil, 0, &arms)
+	nOwn := 0
+	for _, a := range arms {
+		pn.arms++
+		if ta := own(a.leaf); ta != nil {
+			nOwn++
+			cur := bound(ta.X)
+			if pn.cur != nil && pn.cur != cur {
+				pn.bad = "own-name arms of different operands"
+			}
+			pn.cur = cur
+			continue
+		}
+		if isState(a.leaf) {
+			continue
+		}
+		pn.bad = "the compared name may also come from " + core.Path(a.leaf)
+	}
+	if nOwn == 0 {
+		return nil
+	}
+	if pn.bad != "" || len(arms) == 1 {
+		return pn
+	}
+	// the own name always wins: its arm is conditional on the value-vertex test alone, and every inherited arm is taken
+	// only when that test failed
+	isTest := func(l core.Lit, pol bool) bool {
+		if l.Kind != "ok" || l.Pol != pol {
+			return false
+		}
+		ta, ok := l.Of.(*ssa.TypeAssert)
+		return ok && bound(ta.X) == pn.cur && core.NamedOf(ta.AssertedType) == kinds.Value
+	}
+	for _, a := range arms {
+		if own(a.leaf) != nil {
+			for _, l := range a.lits {
+				if core.IsLoopBound(l) || isTest(l, true) {
+					continue
+				}
+				if l.Kind == "cmp" && (isConstStr(l.X) || isConstStr(l.Y)) {
+					// a test of this very name, or of the merged name in effect, against a constant does not choose between the arms
+					self := false
+					for _, o := range []ssa.Value{l.X, l.Y} {
+						if o == a.leaf {
+							self = true
+						}
+						if ph, isPhi := o.(*ssa.Phi); isPhi {
+							for _, sv := range core.Sources(ph) {
+								if sv == a.leaf {
+									self = true
+								}
+							}
+						}
+					}
+					if self {
+						continue
+					}
+				}
+				pn.bad = "the parameter's own name is used only when " + l.String() + ": otherwise a named requirement is searched under its caller's preference"
+			}
+			continue
+		}
+		failed := false
+		for _, l := range a.lits {
+			if isTest(l, false) {
+				failed = true
+			}
+		}
+		if !failed {
+			pn.bad = "the inherited preference can replace the own name of a named requirement (its arm is not confined to the failed value-vertex test)"
+		}
+	}
+	return pn
+}
+
+// pathIndexMismatch: the paths found by the search are kept in a local list; the walk reads path j and must read the
+// per-requirement name at the same j. Returns "" when the indices agree or the shape is not the list-of-paths one.
+func pathIndexMismatch(fn *ssa.Function, ep *ssa.Call, nameIdx ssa.Value) string {
+	var paths ssa.Value
+	for _, u := range core.Users(ep) {
+		if st, ok := u.(*ssa.Store); ok {
+			if ia, isIA := st.Addr.(*ssa.IndexAddr); isIA {
+				paths = ia.X
+			}
+		}
+	}
+	if paths == nil {
+		return ""
+	}
+	found, same := false, false
+	core.Instrs(fn, func(in ssa.Instruction) {
+		ld, ok := in.(*ssa.UnOp)
+		if !ok || ld.Op != token.MUL {
+			return
+		}
+		if ia, isIA := ld.X.(*ssa.IndexAddr); isIA && ia.X == paths {
+			found = true
+			if ia.Index == nameIdx {
+				same = true
+			}
+		}
+	})
+	if found && !same {
+		return "the name read for the nested call is not the entry of the path being walked (" + core.Path(nameIdx) + " is not the index any path is read at)"
+	}
+	return ""
+}
+
+// unspill reads through a parameter that was moved to a heap cell because a closure captures it.
+func unspill(v ssa.Value) ssa.Value {
+	if u, ok := v.(*ssa.UnOp); ok && u.Op == token.MUL {
+		if a, isA := u.X.(*ssa.Alloc); isA {
+			if sv := core.SingleStore(a); sv != nil {
+				return sv
+			}
+		}
+	}
+	return v
+}
+
+func isConstStr(v ssa.Value) bool {
+	c, ok := v.(*ssa.Const)
+	return ok && c.Value != nil && c.Value.Kind().String() == "String"
 }
 
 func assertOf(v ssa.Value) *ssa.TypeAssert {
